@@ -14,7 +14,18 @@ def impl_one(case):
     import numpy as np
     out = S.call_irving(case["P1"], case["P2"], case["V1"], case["V2"], zero=case.get("zero", True), with_profiles=not case.get("omit", False),
                         rank_dtype=np.float64 if case.get("float_ranks") else np.int64)
-    return {"pairs": out}
+    res = {"pairs": out}
+    if case.get("stages") and not case.get("omit"):
+        try:
+            st, nrot = S.irving_stages(case["P1"], case["P2"], case["V1"], case["V2"])
+            res["stages"] = st
+            res["nrot"] = nrot
+        except Exception as e:  # noqa
+            res["stages_exc"] = type(e).__name__ + ": " + str(e)[:150]
+    return res
+
+
+STAGE_OPS = ["irv_mo", "irv_shortlists", "irv_rotations", "irv_poset", "irv_closed"]
 
 
 def gen_random(R, count, nmax):
@@ -143,8 +154,48 @@ def find_better(P1, P2, V1, V2, w, it):
     return None
 
 
+def mirror_compare(R, items, results):
+    """the executable Lean mirror of Irving's algorithm (IrvingAlgo): final answer on every case; every internal stage
+    (male-optimal matching, shortlists, rotations + eliminating map, poset edges, weights + closed subset) in the thorough tier"""
+    lines, where = [], []
+    for i, (it, r) in enumerate(zip(items, results)):
+        if "pairs" not in r:
+            continue
+        ops = ["irv"] + (STAGE_OPS if "stages" in r else [])
+        for op, l in zip(ops, S.irv_lines(it["P1"], it["P2"], it["V1"], it["V2"], ops)):
+            lines.append(l)
+            where.append((i, op))
+    ans = lean_query(lines)
+    for (i, op), a in zip(where, ans):
+        it, r = items[i], results[i]
+        fixer = 0 if it.get("zero", True) else 1
+        inp = {"P1": it["P1"], "P2": it["P2"], "V1": it["V1"], "V2": it["V2"]}
+        cfg = {"zero_indexed": fixer == 0, "ordinal_profiles_omitted": it.get("omit", False), "stage": op}
+        if op == "irv":
+            try:
+                mine = sorted((a_ - fixer, b_ - fixer) for a_, b_ in r["pairs"])
+                exp = " ".join(["ok", str(len(mine))] + ["%d %d" % e for e in mine])
+            except Exception:
+                exp = "uninterpretable"
+            if a != exp:
+                R.corr_break("Irving.scf answer = answer of the Lean mirror IrvingAlgo.irving", ENTRY, inp, r["pairs"], a, cfg)
+            else:
+                R.count("mirror_final_answer_equal")
+        else:
+            if r["stages"].get(op) != a:
+                R.corr_break(f"stage {op}: implementation stage output = Lean mirror", ENTRY, inp, r["stages"].get(op), a, cfg)
+            else:
+                R.count("mirror_stage_equal:" + op)
+    for r in results:
+        if "nrot" in r:
+            R.count("rotations=%s" % (r["nrot"] if r["nrot"] < 9 else "9+"))
+
+
 def run_items(R, items, deadline, certify):
+    for it in items:
+        it["stages"] = bool(R.thorough) or it.get("tag") in ("corpus", "replay")
     results = pmap("c03", "impl_one", items, deadline=deadline, workers=12)
+    mirror_compare(R, items, results)
     need, idx = [], []
     for i, (it, r) in enumerate(zip(items, results)):
         if "pairs" in r and certify(i, it):
